@@ -1,18 +1,19 @@
 //go:build verif
 
 // C07 - driver "html": the generator.  Streams:
-//   doc      well-formed documents: the standard embedding attributes (img src/srcset, script src, link
-//            href with and without rel=alternate, source src/srcset inside picture/video/audio,
-//            video/audio src, url() in style elements and style attributes, a href) planted with
-//            simple reference forms, between decoys (comments, text, textarea/title/noscript content,
-//            unrelated attributes, data: and javascript: URLs), in every quoting style
-//   edge     the same skeleton, with style / srcset / style-element values drawn at random from a small
-//            alphabet around the delimiters of the scanners (never planted: model-vs-code only), the
-//            code's other heuristics (data-preview, meta content, <a> asset paths, data-src...)
-//   excl     one reference from a named exclusion class (percent or "0." in a style attribute), or
-//            from a class that was one before its repair ("//" in a style element, comma or tab in a
-//            srcset, a quote inside url()): those must pass now
-//   open     documents that use the JSON / xurls heuristics the model leaves to oracles
+//
+//	doc      well-formed documents: the standard embedding attributes (img src/srcset, script src, link
+//	         href with and without rel=alternate, source src/srcset inside picture/video/audio,
+//	         video/audio src, url() in style elements and style attributes, a href) planted with
+//	         simple reference forms, between decoys (comments, text, textarea/title/noscript content,
+//	         unrelated attributes, data: and javascript: URLs), in every quoting style
+//	edge     the same skeleton, with style / srcset / style-element values drawn at random from a small
+//	         alphabet around the delimiters of the scanners (never planted: model-vs-code only), the
+//	         code's other heuristics (data-preview, meta content, <a> asset paths, data-src...)
+//	excl     one reference from a named exclusion class (percent or "0." in a style attribute), or
+//	         from a class that was one before its repair ("//" in a style element, comma or tab in a
+//	         srcset, a quote inside url()): those must pass now
+//	open     documents that use the JSON / xurls heuristics the model leaves to oracles
 package main
 
 import (
@@ -692,6 +693,75 @@ func (g *hgen) exclNode() *Node {
 var allTags = []string{"a", "img", "video", "audio", "style", "script", "link", "meta", "source"}
 
 func genHTMLCase(r *Rng, i int, tier string) string {
+	g := buildCase(r, i, tier)
+	return g.finish()
+}
+
+func (g *hgen) finish() string {
+	c := g.c
+	c.Tags = nil
+	for t := range g.tags {
+		c.Tags = append(c.Tags, t)
+	}
+	sortStrings(c.Tags)
+	return mustJSON(c)
+}
+
+// genReqCase: a page as above, at depth 0, behind a chain of 0..4 redirects; every hop has its own
+// URL (scheme, host, port, directory drawn afresh, or the next hop's origin so that the Location header
+// can be path-absolute or scheme-relative).
+func genReqCase(r *Rng, i int, tier string) string {
+	g := buildCase(r, i, tier)
+	c := g.c
+	c.St.Depth = 0
+	if r.Chance(70) {
+		c.St.Status = 200
+	}
+	n := []int{0, 1, 1, 1, 2, 2, 3, 3, 4, 4}[r.Intn(10)]
+	next := c.Page
+	chain := make([]Ref, n)
+	forms := make([]string, n)
+	codes := make([]int, n)
+	used := map[string]bool{c.Page.String(): true}
+	for k := n - 1; k >= 0; k-- {
+		h := g.genPage()
+		h.Q = nil
+		// DedupeItems would drop a hop whose URL is already in the tree (a redirect loop)
+		for used[h.String()] {
+			h.P = append([]string{fmt.Sprintf("r%d", k)}, h.P...)
+		}
+		form := "abs"
+		switch r.Intn(10) {
+		case 0, 1:
+			form = "pabs"
+			h.S, h.A = next.S, next.A
+		case 2:
+			form = "net"
+			h.S = next.S
+		case 3:
+			h.S, h.A = next.S, next.A // same origin, absolute Location
+		}
+		for used[h.String()] {
+			h.P = append([]string{fmt.Sprintf("r%d", k)}, h.P...)
+		}
+		used[h.String()] = true
+		chain[k], forms[k] = h, form
+		codes[k] = []int{301, 302, 302, 303, 307, 308}[r.Intn(6)]
+		g.tag("loc-" + form)
+		if h.A != next.A {
+			g.tag("chain-cross-host")
+		}
+		if h.S != next.S {
+			g.tag("chain-cross-scheme")
+		}
+		next = h
+	}
+	c.Chain, c.LocF, c.RSt = chain, forms, codes
+	g.tag(fmt.Sprintf("chain-%d", n))
+	return g.finish()
+}
+
+func buildCase(r *Rng, i int, tier string) *hgen {
 	g := &hgen{r: r, c: &Case{}, tags: map[string]bool{}}
 	c := g.c
 	switch k := r.Intn(100); {
@@ -799,9 +869,5 @@ func genHTMLCase(r *Rng, i int, tier string) string {
 		c.Body = append(c.Body[:pos], append([]*Node{n}, c.Body[pos:]...)...)
 	}
 	c.Body = tidy(c.Body)
-	for t := range g.tags {
-		c.Tags = append(c.Tags, t)
-	}
-	sortStrings(c.Tags)
-	return mustJSON(c)
+	return g
 }
